@@ -28,6 +28,23 @@ def oracle(line, impl, model, ref=None):
     return None
 
 
+@vlib.known_matcher("D70")
+def _match_d70(stream, line, impl, model):
+    """a schema with an unguarded reference cycle overflows the stack at validation time"""
+    if not line.startswith("fz expr schema") or not impl.startswith("CRASH"):
+        return False
+    text = bytes.fromhex(line.split()[3])
+    return b'"$ref"' in text and "stack-overflow" in impl
+
+
+@vlib.known_matcher("D73")
+def _match_d73(stream, line, impl, model):
+    """csv column_types with the repeat forms trip assertions of json_decoder on some inputs"""
+    if not line.startswith("fz dec csv") or "ASSERTION" not in impl:
+        return False
+    return any(t[0] == "t" and b"*" in bytes.fromhex(t[1:]) for t in line.split()[4:] if len(t) > 1 and t[0] == "t")
+
+
 def nontrivial(line, impl):
     return line if ":ok" in impl else ("E" + line if ":err" in impl else None)
 
@@ -88,7 +105,7 @@ def cbor_hostile(rng):
 
 def dec_lines(rng, scale):
     out = []
-    for _ in range(500 * scale):
+    for _ in range(250 * scale):
         v = value(rng, rng.randint(0, 3))
         out.append("fz dec cbor " + mutate(rng, binfmt.cbor_encode(v, rng, minimal=rng.random() < 0.5)).hex())
         try:
@@ -169,7 +186,7 @@ def expr_lines(rng, scale):
                 t = t[:i] + rng.choice(junk) + t[i:]
         return t
     d0 = jpath.gen_doc(rng, 3)
-    for _ in range(700 * scale):
+    for _ in range(350 * scale):
         segs = jpath.gen_expr(rng, d0)
         out.append("fz expr jsonpath %s | %s" % (mut(jpath.text(rng, segs)).hex(), doc))
         g = jmes.G(rng)
@@ -268,7 +285,7 @@ def run(ctx):
                        "rejected the input through the error channel")
     ctx.impl_timeout, ctx.impl_chunk = 150, 300          # a call that does not return within the budget of its batch is a finding (termination)
     rng = vlib.rng_for(ctx.seed, "c05")
-    streams(ctx, rng, 1 if ctx.tier == "quick" else 6)
+    streams(ctx, rng, 1 if ctx.tier == "quick" else 5)
 
 
 def search(ctx):
